@@ -4,11 +4,15 @@
 # then run  VERIF_REPO=$WT bin/check C03  — every one of them must end in a VIOLATION line.
 # names: none drain-skipped drain-skipped-conn-only drain-skipped-handler-only copy-from-bufreader closewrite-to-close
 #        closewrite-omitted one-direction-only reply-reader-buffered reply-reader-4k grace-10ms drain-twice
-#        drain-one-byte-short no-reflect-closewriter shared-copy-buffer
+#        drain-one-byte-short no-reflect-closewriter shared-copy-buffer connect-2xx-body-kept
+#        connect-2xx-length-kept-for-chunked
+# BASE_PATCH=<file> (optional): a patch applied after the reset and before the mutation (a repair that
+# is not committed in /repo yet, e.g. the one of F29 while it is under review).
 set -e
 WT="${WT:?set WT to a scratch worktree: git -C /repo worktree add --detach <dir>}"
 export WT
 git -C $WT checkout -q -- .
+if [ -n "${BASE_PATCH:-}" ]; then git -C $WT apply "$BASE_PATCH"; fi
 case "$1" in
  none) ;;
  drain-skipped)
@@ -122,6 +126,16 @@ s=s.replace(old,"""func (c copier) copy(ctx context.Context, buf []byte, donec c
 open(p,'w').write(s)
 PY
  ;;
+ connect-2xx-body-kept)
+   # the repair of F29 undone: the body http.ReadResponse built from the 2xx reply's Content-Length /
+   # Transfer-Encoding stays, and connectHTTP's res.Body.Close() drains it out of the tunnel
+   grep -q 'res.Body = http.NoBody' $WT/dialvia/http.go
+   sed -i '/^\t\t\tres.Body = http.NoBody$/d' $WT/dialvia/http.go ;;
+ connect-2xx-length-kept-for-chunked)
+   # the repair of F29 applied to replies with a Content-Length only: a 2xx reply that declares
+   # Transfer-Encoding: chunked keeps its body
+   grep -q 'if res.StatusCode/100 == 2 {' $WT/dialvia/http.go
+   sed -i 's|^\t\tif res.StatusCode/100 == 2 {$|\t\tif res.StatusCode/100 == 2 \&\& len(res.TransferEncoding) == 0 {|' $WT/dialvia/http.go ;;
  *) echo "unknown mutation $1"; exit 2;;
 esac
 git -C $WT diff --stat | tail -1
